@@ -139,6 +139,12 @@ def handle(req: Dict[str, Any]) -> Any:
                         except Exception as e:  # noqa
                             attrs[fn_] = ("$error", str(e))
                     tt = {"$tt": tt, "$attrs": attrs}
+                    # the other dump modes a caller may use (nulls kept; JSON mode)
+                    for key_, kw_ in (("$dump_alias_only", {"by_alias": True}), ("$dump_alias_json_mode", {"by_alias": True, "exclude_none": True, "mode": "json"})):
+                        try:
+                            tt[key_] = obj.model_dump(**kw_)
+                        except Exception as e:  # noqa
+                            tt[key_] = ("$error", f"{type(e).__name__}: {e}")
                     try:
                         dj = obj.model_dump_json(by_alias=True, exclude_none=True)
                     except Exception as e:  # noqa
